@@ -55,7 +55,7 @@ META = {
         "vm_compute for the table generated from the current main.py. TIED by fault enumeration: every "
         "executed stage x exception class x {no file, pre-existing file} on the real main_driver, natural "
         "triggers (incl. BaseException subclasses, failing --pdb-output/--apbs-input writers, closed stdout/stderr), "
-        "and an open()-monitor. HISTORIES: C12_history_outcomes (outcomes of a sequence of runs = outcomes of the single runs), C12_failing_history_keeps_file, C12_ok_after_failing_history, tied by in-process histories [fail, same again], [ok, fail], [fail, ok], [fail A, fail B] over 12 malformed-input families with a sentinel at the output path. The guard stage itself is tied to C02's guard model: C12_generated_guard_tolerance (generated from main.py/utilities.py/config.py: the tolerance is the fixed constant CHARGE_ERROR = TOL/SCALE, no structure-dependent argument) and a differential run of the extracted guard block on 1..5000 residues against guard_ok. SUCCESS half, proved part: C12_guard_never_fires_<FF> (C02's theorem restated per force "
+        "an open()-monitor, and the console entry point in fresh processes over a lattice of output names (suffix classes, directory component, relative, sentinel) plus a check that io.setup_logger's log file is never the output or input path. HISTORIES: C12_history_outcomes (outcomes of a sequence of runs = outcomes of the single runs), C12_failing_history_keeps_file, C12_ok_after_failing_history, tied by in-process histories [fail, same again], [ok, fail], [fail, ok], [fail A, fail B] over 12 malformed-input families with a sentinel at the output path. The guard stage itself is tied to C02's guard model: C12_generated_guard_tolerance (generated from main.py/utilities.py/config.py: the tolerance is the fixed constant CHARGE_ERROR = TOL/SCALE, no structure-dependent argument) and a differential run of the extracted guard block on 1..5000 residues against guard_ok. SUCCESS half, proved part: C12_guard_never_fires_<FF> (C02's theorem restated per force "
         "field) - a structure of complete standard residues in parameterised table states cannot be rejected by the "
         "integrality guard - and C12_table_consistent_run_completes_<FF>: on the generated stage table, if the structure "
         "is table-consistent, the guard stage faults iff the modelled guard raises and no other stage faults, the run ends "
@@ -1399,19 +1399,24 @@ def cli_run(runner, case):
     env = dict(os.environ)
     env["PYTHONPATH"] = f"{core.REPO}:{core.VERIF}"
     env.update(case.get("env", {}))
-    wd = runner.workdir()
+    wd = case.get("_wd") or runner.workdir()
     (wd / "in.pdb").write_text(case["files"]["in.pdb"], encoding="utf-8")
-    o = wd / "out.pqr"
+    out_name = case.get("out_name", "out.pqr")
+    o = wd / out_name
+    o.parent.mkdir(parents=True, exist_ok=True)
     if case.get("pre"):
         o.write_text(OLD_CONTENT)
         os.utime(o, (OLD_MTIME, OLD_MTIME))
     before = snapshot(o)
-    cmd = ["timeout", "120", sys.executable, "-m", "pdb2pqr", *case["opts"], str(wd / "in.pdb"), str(o)]
+    in_before = snapshot(wd / "in.pdb")
+    # the output path as the user types it: absolute, or relative to the working directory
+    o_arg = out_name if case.get("relative") else str(o)
+    cmd = ["timeout", "120", sys.executable, "-m", "pdb2pqr", *case["opts"], str(wd / "in.pdb"), o_arg]
     if case.get("closed_streams"):
         # stdout and stderr CLOSED (not redirected): every console write of the logger fails
         cmd = ["sh", "-c", 'exec "$@" >&- 2>&-', "sh", *cmd]
     else:
-        cmd.insert(-2, "--log-level=CRITICAL")
+        cmd.insert(-2, "--log-level=" + case.get("log_level", "CRITICAL"))
     p = subprocess.run(cmd, capture_output=not case.get("closed_streams"), text=True, env=env, cwd=wd, errors="replace")
     if case.get("closed_streams"):
         p.stderr = ""
@@ -1419,6 +1424,8 @@ def cli_run(runner, case):
     txt = o.read_text(errors="replace") if after and "sha" in after else None
     state, why = classify(before, after, txt, None, False)
     cause = next((c for c in ("UnicodeEncodeError", "UnicodeDecodeError") if c in p.stderr), "other")
+    if snapshot(wd / "in.pdb") != in_before:
+        state, why = "input-modified", "the INPUT file was changed by the run"
     return p.returncode, state, why, f"[cause:{cause}] " + p.stderr[-400:]
 
 
@@ -1458,6 +1465,90 @@ def judge_cli(ctx, r, report_=True):
     if sig and report_:
         ctx.fail(sig[0], sig[1], r["case"])
     return sig
+
+
+# output paths as users type them (C12 quantifies over configurations: the name of the output must not matter)
+OUT_NAME_LATTICE = [
+    ("lower-pqr", "result.pqr", False), ("upper-suffix", "result.PQR", False), ("other-suffix-cif", "result.cif", False),
+    ("other-suffix-txt", "result.txt", False), ("no-suffix", "result", False), ("several-dots", "1ajj.amber.out", False),
+    ("directory-component", "sub/dir.d/out.pqr", False), ("relative", "rel.out", True), ("relative-dir", "sub2/rel", True),
+    ("equals-input-stem", "in", False), ("pqr-inside-name", "my.pqr.v2", False),
+]
+
+
+def cli_lattice(ctx, structs, runner):
+    """The console entry point (python -m pdb2pqr, fresh process, sys.argv) does work BEFORE main_driver
+    (logger set-up, argument parsing): failing and succeeding runs for every output-name class, with the
+    output path absent and pre-existing (sentinel bytes + mtime + inode)."""
+    from concurrent.futures import ThreadPoolExecutor
+
+    jobs = []
+    for cls, name, rel in OUT_NAME_LATTICE:
+        for pre in (False, True):
+            jobs.append({"kind": "cli", "tag": f"cli-out-name:{cls}:fail", "files": {"in.pdb": structs["missing-CZ"]}, "opts": ["--ff=AMBER", "--assign-only"],
+                         "pre": pre, "expect": "fail", "env": {}, "out_name": name, "relative": rel, "log_level": "INFO", "name_class": cls})
+        jobs.append({"kind": "cli", "tag": f"cli-out-name:{cls}:empty-input", "files": {"in.pdb": ""}, "opts": ["--ff=PARSE"],
+                     "pre": True, "expect": "fail", "env": {}, "out_name": name, "relative": rel, "log_level": "DEBUG", "name_class": cls})
+        jobs.append({"kind": "cli", "tag": f"cli-out-name:{cls}:ok", "files": {"in.pdb": structs["pep"]}, "opts": ["--ff=AMBER"],
+                     "pre": True, "expect": "ok", "env": {}, "out_name": name, "relative": rel, "log_level": "INFO", "name_class": cls})
+    for j in jobs:
+        j["_wd"] = runner.workdir()
+
+    def one(j):
+        rc, state, why, err = cli_run(runner, j)
+        return {"tag": j["tag"], "rc": rc, "state": state, "why": why, "expect": j["expect"], "stderr_tail": err, "case": {k: v for k, v in j.items() if not k.startswith("_")}}
+
+    with ThreadPoolExecutor(max_workers=8) as ex:
+        res = list(ex.map(one, jobs))
+    for r in res:
+        ctx.count(f"cli-lattice:{r['expect']}:rc{min(r['rc'], 1)}:{r['state']}")
+        ctx.evaluated(("cli-lattice", r["tag"], r["case"]["pre"]), True)
+        sig = judge_cli(ctx, r, report_=False)
+        if sig:
+            sg = dict(sig[0])
+            sg["trigger"] = "cli-out-name"
+            sg["name_class"] = r["case"]["name_class"]
+            ctx.fail(sg, f"output name {r['case']['out_name']!r}: " + sig[1], r["case"])
+
+
+def logger_path_check(ctx):
+    """Every file the command-line entry creates besides the output must not BE the output path nor the
+    input path.  io.setup_logger is called with logging.basicConfig intercepted (nothing is opened) for a
+    lattice of output names; the log file it asks for is compared with the output and input paths."""
+    import logging as _logging
+
+    from pdb2pqr import io as pio
+
+    root = _logging.getLogger("")
+    saved_h, saved_f = list(root.handlers), list(root.filters)
+    orig = _logging.basicConfig
+    seen = {}
+    _logging.basicConfig = lambda **kw: seen.__setitem__("filename", kw.get("filename"))
+    names = [n for _, n, _ in OUT_NAME_LATTICE] + ["/tmp/x/y.pqr", "a.b.c.pqr", "UPPER.PQR", "x.Pqr", "noext", "dir.pqr/out", "in.pdb.out", "result.pqr.bak", "résumé"]
+    try:
+        with quiet():
+            for n in names:
+                seen.clear()
+                try:
+                    pio.setup_logger(n, "CRITICAL")
+                except Exception as e:  # noqa: BLE001
+                    ctx.broke("correspondence-broken", "io.setup_logger could not be driven with an intercepted basicConfig", f"{n!r}: {type(e).__name__}: {e}")
+                    return
+                lf = seen.get("filename")
+                ctx.evaluated(("logger-path", n), True)
+                ctx.count("logger-path:checked")
+                if lf is None:
+                    continue
+                stem = Path(n).stem
+                for other, what in ((n, "output"), (str(Path(n).parent / "in.pdb"), "input"), (str(Path(n).with_name(stem + ".pdb")), "input-of-same-stem")):
+                    if os.path.normpath(str(lf)) == os.path.normpath(other):
+                        ctx.fail({"side": "failure", "site": "io.setup_logger", "condition": f"log-file-is-the-{what}-path", "suffix": Path(n).suffix.lower() or "none"},
+                                 f"output name {n!r}: main() opens the log file {str(lf)!r} for appending before any check - it IS the {what} path",
+                                 {"kind": "logger-path", "out_name": n})
+    finally:
+        _logging.basicConfig = orig
+        root.handlers[:] = saved_h
+        root.filters[:] = saved_f
 
 
 GUARD_HEADER = "From Coq Require Import String ZArith.\nFrom PV Require Import Model.States.\nOpen Scope string_scope.\n"
@@ -1884,6 +1975,8 @@ def run(ctx):
         ctx.count(f"cli:{r['tag']}:rc{r['rc']}:{r['state']}")
         ctx.evaluated(("cli", r["tag"]), True)
         judge_cli(ctx, r)
+    cli_lattice(ctx, structs, runner)
+    logger_path_check(ctx)
 
     # ---- success side (exploration)
     cov, detail = ff_coverage()
@@ -1981,6 +2074,15 @@ def replay(ctx, data):
     info = regenerate(ctx) or {"stages": [], "tests": []}
     smap = StageMap(info)
     runner = Runner(ctx, smap)
+    if case.get("kind") == "logger-path":
+        global OUT_NAME_LATTICE
+        OUT_NAME_LATTICE = [("replay", case["out_name"], False)]
+        before = len(ctx.failures)
+        logger_path_check(ctx)
+        still = [f for f in ctx.failures[before:] if f["case"].get("out_name") == case["out_name"]]
+        print("replay logger-path", case["out_name"], ":", "FAILS: " + still[0]["what"] if still else "passes")
+        ctx.cleanup()
+        return 1 if still else 0
     if case.get("kind") == "guard-block":
         global GUARD_DS
         GUARD_DS = [case["d"]]
